@@ -243,6 +243,78 @@ func taskTrouble(r *rt.Run, id, key string, t *rt.Task) bool {
 	return false
 }
 
+// c08Retry: a TRANSIENT sink fault (one Write call accepts nothing and fails,
+// the sink is healthy afterwards) at a paragraph boundary of an Encoder
+// sequence; the caller retries the failed Encode on the same Encoder, as a
+// caller of a streaming API would.  What the sink finally holds must read back
+// as exactly the paragraphs whose Encode returned nil.
+func c08Retry(r *rt.Run, paras []control.Paragraph, expect [][]c08Field, w0 *simio.Writer) {
+	t := r.T
+	// boundary calls of the fault-free run: a separator write, or the first
+	// write of a paragraph
+	var boundary []int
+	for i, off := range w0.Offs {
+		sep := w0.Sizes[i] == 1 && w0.Buf[off] == '\n' && off > 0 && w0.Buf[off-1] == '\n'
+		first := off == 0 || (off >= 2 && w0.Buf[off-1] == '\n' && w0.Buf[off-2] == '\n')
+		if sep || first {
+			boundary = append(boundary, i+1)
+		}
+	}
+	if len(boundary) == 0 {
+		return
+	}
+	call := boundary[t.Draw(len(boundary), "fault.call")]
+	w := simio.NewWriter(r, "sinkT")
+	w.FailOnceAtCall(call, simio.ErrIO)
+	retried := false
+	var werr error
+	task := r.Solo("writer:Encoder/retry", func() {
+		enc, e := control.NewEncoder(w)
+		if e != nil {
+			werr = e
+			return
+		}
+		for i := range paras {
+			err := enc.Encode(&embedPara{paras[i]})
+			if err != nil && !retried {
+				retried = true
+				err = enc.Encode(&embedPara{paras[i]})
+			}
+			if err != nil {
+				werr = err
+				return
+			}
+		}
+	})
+	if taskTrouble(r, "C08", "Encoder/retry", task) {
+		return
+	}
+	if !w.Fired {
+		return
+	}
+	r.Probe("encode-retried-after-transient-write-error")
+	if werr != nil {
+		r.Violate("C08/retry-failed", "Encoder", "after one transient write error the retried Encode failed: %v", werr)
+		return
+	}
+	got, err, rtask := readParas(r, w.Buf)
+	if taskTrouble(r, "C08", "read", rtask) {
+		return
+	}
+	if err != nil || len(got) != len(paras) {
+		r.Violate("C08/paragraph-count", "Encoder/retry-after-transient-error", "one Write call (#%d, at a paragraph boundary) failed once and the Encode was retried: %d paragraphs encoded with nil error, reading back gives %d (err=%v)\nwritten=%q", call, len(paras), len(got), err, clip(string(w.Buf), 400))
+		return
+	}
+	for i := range got {
+		for j, f := range expect[i] {
+			if j >= len(got[i].Order) || got[i].Order[j] != f.Name || strip1(got[i].Values[f.Name]) != strip1(f.Expect) {
+				r.Violate("C08/roundtrip-mismatch", "Encoder/retry-after-transient-error", "paragraph %d field %q differs after a retried Encode\nwritten=%q", i, f.Name, clip(string(w.Buf), 400))
+				return
+			}
+		}
+	}
+}
+
 func runC08(r *rt.Run, tier string) {
 	t := r.T
 	apis := []string{"WriteTo", "Encoder", "MarshalSlice", "EncoderMixed"}
@@ -321,6 +393,10 @@ func runC08(r *rt.Run, tier string) {
 	if faulty {
 		r.Stats["config.faulty"]++
 		if len(w0.Buf) == 0 {
+			return
+		}
+		if api == "Encoder" && !docFirst && t.Bool(1, 2, "fault.transient") {
+			c08Retry(r, paras, expect, w0)
 			return
 		}
 		k := t.Draw(len(w0.Buf), "faultpos")
@@ -448,5 +524,5 @@ func init() {
 		},
 		Assumptions: []string{"values are compared after removing one trailing newline (the statement's equality) and, for values built with the library's leading-newline multi-line marker, the marker", "lines that are exactly '.', blanks around a first line, and field names with ':' or leading '#' are outside the text format and not generated"},
 	})
-	propProbes["C08"] = []string{"encoder-mixes-structs-and-slices", "single-line-with-trailing-newline", "multi-line-with-trailing-newline", "two-empty-lines", "three-empty-lines", "four-empty-lines", "leading-marker", "three-or-more-paragraphs", "three-or-more-cycles"}
+	propProbes["C08"] = []string{"encode-retried-after-transient-write-error", "encoder-mixes-structs-and-slices", "single-line-with-trailing-newline", "multi-line-with-trailing-newline", "two-empty-lines", "three-empty-lines", "four-empty-lines", "leading-marker", "three-or-more-paragraphs", "three-or-more-cycles"}
 }
